@@ -12,6 +12,7 @@ import (
 	"github.com/dadrus/heimdall/verif/props/c13"
 	"github.com/dadrus/heimdall/verif/props/c15"
 	"github.com/dadrus/heimdall/verif/props/c16"
+	"github.com/dadrus/heimdall/verif/props/c18"
 )
 
 func main() {
@@ -28,6 +29,7 @@ func main() {
 		c13.Check(),
 		c15.Check(),
 		c16.Check(),
+		c18.Check(),
 	} {
 		checks[c.ID] = c
 	}
